@@ -165,6 +165,8 @@ pub enum NodeKind {
         always: bool,
         /// streams: report an exact size_hint
         hint: bool,
+        /// invoke the most recent waker from the destructor
+        dropwake: bool,
     },
     Comb {
         family: Family,
@@ -1051,12 +1053,12 @@ pub fn node_drop_begin(id: NodeId) {
 }
 
 pub fn node_dropped(id: NodeId) {
-    let _ = try_with(|w| {
+    let wake: Option<Waker> = try_with(|w| {
         let now = w.tick();
         if id >= w.nodes.len() {
             w.unknown_tok_drops += 1;
             w.violate(Oracle::D, format!("an unknown child (id {:#x}) was dropped", id));
-            return;
+            return None;
         }
         let n = &mut w.nodes[id];
         n.drops += 1;
@@ -1084,7 +1086,37 @@ pub fn node_dropped(id: NodeId) {
                 w.violate_f(Oracle::D, f, m);
             }
         }
-    });
+        // wake-on-drop children: hand back the waker of the most recent poll
+        let first_drop = w.nodes[id].drops == 1;
+        let dropwake = matches!(&w.nodes[id].kind, NodeKind::Leaf { dropwake: true, .. });
+        if first_drop && dropwake {
+            let now = w.tick();
+            let n = &mut w.nodes[id];
+            if let Some(rec) = n.wakers.last_mut() {
+                rec.fires.push(now);
+                n.fire_count += 1;
+                let wk = rec.waker.clone();
+                if w.trace_on {
+                    let p = w.path(id);
+                    w.trace.push(format!("      {} invokes its waker from its destructor", p));
+                }
+                return wk;
+            }
+        }
+        None
+    })
+    .flatten();
+    if let Some(wk) = wake {
+        let r = std::panic::catch_unwind(std::panic::AssertUnwindSafe(|| wk.wake_by_ref()));
+        if let Err(e) = r {
+            let msg = panic_msg(&e);
+            with(|w| {
+                let p = w.path(id);
+                let f = w.owner_family(id);
+                w.violate_f(Oracle::WakerPanic, f, format!("invoking, from the child's destructor, the waker handed to {} panicked: {}", p, msg))
+            });
+        }
+    }
 }
 
 /// Begin a poll of a combinator node (probe or top). Returns the waker to
